@@ -11,6 +11,8 @@ close_link / _link_error_cb in virtual time.
 Events (JSON-able):
   ['send', rid, hdr, data, exp, timeout_ms|None]   cf.send_packet(CRTPPacket(hdr, data), expected_reply=tuple(exp)[, timeout])
   ['recv', hdr, data]      a packet arrives on the current link (ignored when there is no link)
+  ['recvcb', hdr, data, [[rid, hdr, data, exp, timeout_ms|None], ...]]
+                           a packet arrives and the port callback handling it (inside the real dispatch) sends these requests
   ['open', nr]             cf.open_link(...) with a link whose needs_resending is nr (ignored when a link is open)
   ['close']                cf.close_link()
   ['linkerr']              the driver reports an error (cf._link_error_cb)
@@ -127,6 +129,26 @@ class Run:
             self.cfmod.Timer, classes = self.saved
             self.crtp.CLASSES[:] = classes
 
+    def _send(self, ev):
+        from cflib.crtp.crtpstack import CRTPPacket
+        cf = self.cf
+        _, rid, hdr, data, exp, tmo = ev
+        pk = CRTPPacket(hdr, list(data))
+        assert pk.header == (hdr | 0x0C)
+        self.keep.append(pk)
+        self.pk_rid[id(pk)] = rid
+        try:
+            if tmo is None:
+                cf.send_packet(pk, expected_reply=tuple(exp))
+            else:
+                cf.send_packet(pk, expected_reply=tuple(exp), timeout=tmo / 1000.0)
+        except Exception:
+            self.out.append([-1, rid, self.now])
+            lock = getattr(cf, '_send_lock', None)
+            if lock is not None and lock.locked():      # an exception under the lock would wedge every later send
+                self.out.append([-2, rid, self.now])
+                lock.release()
+
     # ---- events
     def step(self, ev):
         from cflib.crtp.crtpstack import CRTPPacket
@@ -157,22 +179,7 @@ class Run:
             return
         self.expanded.append(ev)
         if k == 'send':
-            _, rid, hdr, data, exp, tmo = ev
-            pk = CRTPPacket(hdr, list(data))
-            assert pk.header == (hdr | 0x0C)
-            self.keep.append(pk)
-            self.pk_rid[id(pk)] = rid
-            try:
-                if tmo is None:
-                    cf.send_packet(pk, expected_reply=tuple(exp))
-                else:
-                    cf.send_packet(pk, expected_reply=tuple(exp), timeout=tmo / 1000.0)
-            except Exception:
-                self.out.append([-1, rid, self.now])
-                lock = getattr(cf, '_send_lock', None)
-                if lock is not None and lock.locked():      # an exception under the lock would wedge every later send
-                    self.out.append([-2, rid, self.now])
-                    lock.release()
+            self._send(ev)
         elif k == 'recv':
             if cf.link is not None:
                 self.inbox.append(CRTPPacket(ev[1], list(ev[2])))
@@ -184,6 +191,34 @@ class Run:
                     del self.inbox[:]
                     self.out.append([-3, -1, self.now])
                     self.died = type(e).__name__
+        elif k == 'recvcb':
+            # a packet arrives and the port callback that handles it sends follow-up requests (from inside the real
+            # _IncomingPacketHandler.run dispatch).  For the model: the answer check for the packet, THEN the sends.
+            self.expanded.pop()
+            if cf.link is not None:
+                _, hdr, data, follow = ev
+                pk = CRTPPacket(hdr, list(data))
+                port = (hdr >> 4) & 0xF
+                self.expanded.append(['recv', hdr, list(data)])
+
+                def cb(p, _pk=pk):
+                    if p is _pk:
+                        for f in follow:
+                            e2 = ['send'] + list(f)
+                            self.expanded.append(e2)
+                            self._send(e2)
+                cf.add_port_callback(port, cb)
+                self.inbox.append(pk)
+                try:
+                    cf.incoming.run()
+                except _Stop:
+                    pass
+                except Exception as e:
+                    del self.inbox[:]
+                    self.out.append([-3, -1, self.now])
+                    self.died = type(e).__name__
+                finally:
+                    cf.remove_port_callback(port, cb)
         elif k == 'open':
             if cf.link is None:
                 self.next_nr = bool(ev[1])
